@@ -1,6 +1,9 @@
 (* Model of compressed-certificate handling (RFC 8879) in /repo:
      utlsCompressedCertificateMsg.marshal / unmarshal      u_handshake_messages.go:23-54
      clientHandshakeStateTLS13.decompressCert           u_handshake_client.go:51-120
+   [decompress_cert_top] is decompressCert as it is in /repo after commit 4697a7d as well: the zstd reader is
+   opened with WithDecoderMaxWindow(8 MiB), so a zstd frame whose header declares a larger Window_Size is
+   refused when the decoder reaches it ([zstd_effective]); brotli and zlib readers are unaffected.
    STATE OF THIS FILE: [decompress_cert] models the code AFTER fixes/C21-decompress-readfull.diff
    (length cap, io.ReadFull, one-byte probe for trailing output).  [decompress_cert_v0] is the code
    as found (single Read, no probe, no cap); it is kept so that the defects F-21a/F-21b stay
@@ -150,3 +153,48 @@ Definition decompress_cert (eof_early : bool) (advertised : list N) (alg declare
   end.
 
 End Cert.
+
+(* ---------- zstd: the declared Window_Size of every frame is an input (u_handshake_client.go:50,86-94) ---------- *)
+Definition maxCompressedCertZstdWindow : N := 8388608.      (* 8 << 20 *)
+
+(* frames of the stream in order: (Window_Size declared by the frame header — Window_Descriptor, or
+   Frame_Content_Size for a Single_Segment frame —, number of bytes the frame decompresses to) *)
+Definition zframes := list (N * N).
+
+(* offset in the decompressed output at which the first frame over the cap starts *)
+Fixpoint first_over (cap : N) (fs : zframes) (acc : nat) : option nat :=
+  match fs with
+  | [] => None
+  | (w, n) :: r => if cap <? w then Some acc else first_over cap r (acc + N.to_nat n)
+  end.
+
+(* the chunks that are delivered before offset off *)
+Fixpoint cut_chunks (off : nat) (cs : list nat) : list nat :=
+  match cs with
+  | [] => []
+  | c :: r =>
+      match off with
+      | O => []
+      | _ => if (c <=? off)%nat then c :: cut_chunks (off - c) r else [off]
+      end
+  end.
+
+(* klauspost frameDec.reset: ErrWindowSizeExceeded when the header of the next frame is read; everything the
+   earlier frames decode to has been delivered *)
+Definition zstd_effective (cap : N) (fs : zframes) (r : reader) : reader :=
+  match first_over cap fs O with
+  | None => r
+  | Some off => mkR (firstn off (r_out r)) (cut_chunks off (r_chunks r)) RErr
+  end.
+
+Definition effective (alg : N) (fs : zframes) (r : reader) : reader :=
+  if alg =? CertCompressionZstd then zstd_effective maxCompressedCertZstdWindow fs r else r.
+
+Section Top.
+Variable C : Type.
+Variable parse_cert : bytes -> option C.
+(* r = what the compressed stream validly encodes (any chunking); fs = its zstd frame headers (ignored for brotli/zlib) *)
+Definition decompress_cert_top (eof_early : bool) (advertised : list N) (alg declared : N) (open_ok : bool)
+           (fs : zframes) (r : reader) : res C :=
+  decompress_cert C parse_cert eof_early advertised alg declared open_ok (effective alg fs r).
+End Top.
